@@ -223,7 +223,15 @@ clone_evmux(echs_const_evstrm_t s)
 		if (UNLIKELY((stmp = this->s[i]) == NULL)) {
 			;
 		} else if (UNLIKELY((stmp = clone_echs_evstrm(stmp)) == NULL)) {
-			;
+			/* no half clones, next_evmux() would trip over him */
+			for (size_t j = 0U; j < i; j++) {
+				if (LIKELY(res->s[j] != NULL)) {
+					free_echs_evstrm(res->s[j]);
+				}
+			}
+			free(res->s);
+			free(res);
+			return NULL;
 		}
 		res->s[i] = stmp;
 	}
@@ -256,14 +264,18 @@ echs_evstrm_mux(echs_evstrm_t s, ...)
 			}
 			strm = x;
 		}
-		strm[nstrm++] = clone_echs_evstrm(s);
+		if (UNLIKELY((strm[nstrm] = clone_echs_evstrm(s)) == NULL)) {
+			goto free;
+		}
+		nstrm++;
 	}
 	va_end(ap);
 	return make_evmux(strm, nstrm);
 free:
 	va_end(ap);
+	/* these are our clones */
 	for (size_t i = 0U; i < nstrm; i++) {
-		free(strm[i]);
+		free_echs_evstrm(strm[i]);
 	}
 	free(strm);
 	return NULL;
